@@ -21,6 +21,7 @@ import (
 	"os"
 
 	"github.com/go-viper/mapstructure/v2"
+	"github.com/knadh/koanf/maps"
 	"github.com/knadh/koanf/providers/confmap"
 	"github.com/knadh/koanf/v2"
 )
@@ -67,7 +68,7 @@ func (c *configLoader) Load(config any) error {
 		}
 
 		return parser.Load(
-			confmap.Provider(konf.Raw(), ""),
+			confmap.Provider(expandDottedKeys(konf.Raw()).(map[string]any), ""), //nolint:forcetypeassert
 			nil,
 			koanf.WithMergeFunc(func(src, dest map[string]any) error {
 				for key, val := range src {
@@ -101,6 +102,28 @@ func (c *configLoader) Load(config any) error {
 			WeaklyTypedInput: true,
 		},
 	})
+}
+
+// expandDottedKeys converts keys addressing nested properties (like 'config.subject'), which
+// the environment loader creates for properties of list elements, into nested maps. Otherwise,
+// such properties are not merged with the values of the same list element defined elsewhere.
+func expandDottedKeys(val any) any {
+	switch typed := val.(type) {
+	case map[string]any:
+		for key, value := range typed {
+			typed[key] = expandDottedKeys(value)
+		}
+
+		return maps.Unflatten(typed, ".")
+	case []any:
+		for idx, value := range typed {
+			typed[idx] = expandDottedKeys(value)
+		}
+
+		return typed
+	default:
+		return val
+	}
 }
 
 func (c *configLoader) configFile() (string, error) {
